@@ -133,6 +133,31 @@ pub fn guard<R>(f: impl FnOnce() -> R) -> Result<R, String> {
     }
 }
 
+/// a subscriber at TRACE level writing to a sink: every #[instrument] field, ret/err formatter
+/// and event argument of the library is evaluated when a case runs under it
+pub fn trace_dispatch() -> &'static tracing::Dispatch {
+    static D: std::sync::OnceLock<tracing::Dispatch> = std::sync::OnceLock::new();
+    D.get_or_init(|| {
+        let sub = tracing_subscriber::fmt().with_max_level(tracing::Level::TRACE).with_writer(std::io::sink).finish();
+        tracing::Dispatch::new(sub)
+    })
+}
+
+/// run `f` with or without the TRACE subscriber installed for this thread
+pub fn maybe_traced<R>(traced: bool, f: impl FnOnce() -> R) -> R {
+    if traced {
+        tracing::dispatcher::with_default(trace_dispatch(), f)
+    } else {
+        f()
+    }
+}
+
+/// one case in eight of every generated or enumerated check runs under the TRACE subscriber: what
+/// a property states must not depend on whether the application has logging switched on
+pub fn traced_share(index: u64) -> bool {
+    index % 8 == 3
+}
+
 // ---------------------------------------------------------------------------------------------
 // failures
 
@@ -329,6 +354,8 @@ pub struct Violation {
     pub check: String,
     pub fail: Fail,
     pub case: Value,
+    /// the case failed while a TRACE subscriber was installed
+    pub traced: bool,
 }
 
 pub struct Ctx {
@@ -371,7 +398,14 @@ pub struct FuzzServe {
 pub enum FuzzOutcome {
     /// the check held on this case (or the bytes did not yield a case)
     Held,
-    Violated { check: String, sig: String, msg: String, case: Value },
+    Violated {
+        check: String,
+        sig: String,
+        msg: String,
+        case: Value,
+        #[serde(default)]
+        traced: bool,
+    },
 }
 
 impl Ctx {
@@ -458,6 +492,10 @@ impl Ctx {
     }
 
     pub fn record_violation(&self, check: &str, fail: Fail, case: Value) {
+        self.record_violation_traced(check, fail, case, false)
+    }
+
+    pub fn record_violation_traced(&self, check: &str, fail: Fail, case: Value, traced: bool) {
         STOP.store(true, std::sync::atomic::Ordering::SeqCst);
         let mut v = self.violations.lock().unwrap();
         // one record per (check, failure class); several workers usually find the same thing
@@ -468,6 +506,7 @@ impl Ctx {
             check: check.to_string(),
             fail,
             case,
+            traced,
         });
     }
 
@@ -492,7 +531,7 @@ impl Ctx {
             Mode::Serve => {
                 if self.serve.as_ref().map_or(false, |s| s.want == check) {
                     let strat = strategy();
-                    self.serve_loop(check, |data, st| bytes_case(&strat, &test, data, st));
+                    self.serve_loop(check, false, |data, st| bytes_case(&strat, &test, data, st));
                 }
                 return;
             }
@@ -529,13 +568,22 @@ impl Ctx {
                         let stats = RefCell::new(this.new_stats());
                         let last_fail: RefCell<Option<Fail>> = RefCell::new(None);
                         let strat = strategy();
+                        let counter = std::cell::Cell::new(w);
+                        // Some(mode) once a case has failed: shrinking keeps the mode of the failing case
+                        let fail_mode: std::cell::Cell<Option<bool>> = std::cell::Cell::new(None);
                         let res = runner.run(&strat, |v| {
                             let mut st = stats.borrow_mut();
                             if !st.frozen && stopped() {
                                 // another worker already holds a violation: skip the rest
                                 return Ok(());
                             }
-                            let r = guard(|| test(&v, &mut st));
+                            let idx = counter.get();
+                            counter.set(idx + 1);
+                            let traced = fail_mode.get().unwrap_or_else(|| traced_share(idx));
+                            if traced && !st.frozen {
+                                st.class("cases executed under a TRACE tracing subscriber");
+                            }
+                            let r = guard(|| maybe_traced(traced, || test(&v, &mut st)));
                             let r = match r {
                                 Ok(r) => r,
                                 Err(p) => Err(Fail::new("harness-panic", format!("panic escaped the check: {}", p))),
@@ -544,6 +592,9 @@ impl Ctx {
                                 Ok(()) => Ok(()),
                                 Err(f) => {
                                     st.frozen = true;
+                                    if fail_mode.get().is_none() {
+                                        fail_mode.set(Some(traced));
+                                    }
                                     let m = f.msg.clone();
                                     *last_fail.borrow_mut() = Some(f);
                                     Err(TestCaseError::fail(m))
@@ -556,7 +607,8 @@ impl Ctx {
                                 // re-run the shrunk case once to obtain its own failure record
                                 let mut st = this.new_stats();
                                 st.frozen = true;
-                                let f = match guard(|| test(&v, &mut st)) {
+                                let traced = fail_mode.get().unwrap_or(false);
+                                let f = match guard(|| maybe_traced(traced, || test(&v, &mut st))) {
                                     Ok(Err(f)) => f,
                                     Ok(Ok(())) => last_fail
                                         .borrow()
@@ -568,7 +620,7 @@ impl Ctx {
                                         .unwrap_or(Fail::new("unknown", "failure vanished on re-run")),
                                     Err(p) => Fail::new("harness-panic", p),
                                 };
-                                this.record_violation(check, f, serde_json::to_value(&v).unwrap_or(Value::Null));
+                                this.record_violation_traced(check, f, serde_json::to_value(&v).unwrap_or(Value::Null), traced);
                             }
                             Err(TestError::Abort(r)) => {
                                 this.note(format!("{}: proptest aborted: {}", check, r));
@@ -616,7 +668,11 @@ impl Ctx {
                                     }
                                 }
                             }
-                            let r = match guard(|| test(&items[i], &mut st)) {
+                            let traced = traced_share(i as u64);
+                            if traced {
+                                st.class("cases executed under a TRACE tracing subscriber");
+                            }
+                            let r = match guard(|| maybe_traced(traced, || test(&items[i], &mut st))) {
                                 Ok(r) => r,
                                 Err(p) => Err(Fail::new("harness-panic", format!("panic escaped the check: {}", p))),
                             };
@@ -639,7 +695,7 @@ impl Ctx {
             }
         });
         if let Some((i, f)) = first_bad.into_inner().unwrap() {
-            self.record_violation(check, f, serde_json::to_value(&items[i]).unwrap_or(Value::Null));
+            self.record_violation_traced(check, f, serde_json::to_value(&items[i]).unwrap_or(Value::Null), traced_share(i as u64));
         }
     }
 
@@ -696,7 +752,7 @@ impl Ctx {
             Mode::List => self.listed.lock().unwrap().push((check.to_string(), true)),
             Mode::Serve => {
                 if self.serve.as_ref().map_or(false, |s| s.want == check) {
-                    self.serve_loop(check, one);
+                    self.serve_loop(check, true, one);
                 }
             }
             Mode::Normal => self.corpus_replay(check, one),
@@ -731,7 +787,7 @@ impl Ctx {
     }
 
     /// Serve mode: answer one outcome per received input until the channel closes.
-    fn serve_loop(&self, check: &str, one: impl Fn(&[u8], &mut Stats) -> Option<(Fail, Value)>) {
+    fn serve_loop(&self, check: &str, raw: bool, one: impl Fn(&[u8], &mut Stats) -> Option<(Fail, Value)>) {
         let Some(s) = &self.serve else { return };
         let rx = s.rx.lock().unwrap();
         let tx = s.tx.lock().unwrap();
@@ -750,6 +806,7 @@ impl Ctx {
                     sig: f.sig,
                     msg: f.msg,
                     case,
+                    traced: !raw && data.first().map_or(false, |b| traced_share(*b as u64)),
                 },
             };
             drop(g);
@@ -792,8 +849,9 @@ where
         }
     };
     let v = tree.current();
+    let traced = data.first().map_or(false, |b| traced_share(*b as u64));
     let run = |v: &V, st: &mut Stats| -> TestResult {
-        match guard(|| test(v, st)) {
+        match guard(|| maybe_traced(traced, || test(v, st))) {
             Ok(r) => r,
             Err(p) => Err(Fail::new("harness-panic", format!("panic escaped the check: {}", p))),
         }
@@ -899,6 +957,9 @@ pub struct ReplayFile {
     pub signature: String,
     pub message: String,
     pub case: Value,
+    /// the case failed with a TRACE tracing subscriber installed (the replay installs one too)
+    #[serde(default)]
+    pub traced: bool,
 }
 
 pub fn write_replay(property: &str, v: &Violation) -> PathBuf {
@@ -910,6 +971,7 @@ pub fn write_replay(property: &str, v: &Violation) -> PathBuf {
         signature: v.fail.sig.clone(),
         message: v.fail.msg.clone(),
         case: v.case.clone(),
+        traced: v.traced,
     };
     let text = serde_json::to_string_pretty(&body).unwrap();
     let d = digest(&(property, &v.check, v.case.to_string()));
